@@ -1,8 +1,8 @@
 #!/verif/.venv/bin/python
 # Replay of a solver counterexample against the unmodified code (no shims).
-# property=C18 kernel=switch label=nonstrict:within_limits_of_new_device
+# property=C18 kernel=switch label=strict:identical_timeline
 import sys
 sys.path[:0] = ['/repo' + "/pulser-core", '/repo' + "/pulser-simulation", "/verif"]
 from symx.replay import replay
-sys.exit(replay(check='checks.c18', kernel='switch', shape={'program': 'retarget', 'sym': [['ryd_loc', 'min_duration']], 'strict': False},
-                assignment={'buf#1.start': 0, 'buf#1.end': 12, 'buf#2.start': 0, 'buf#2.end': 13, 'ryd_loc.min_duration': 13}, label='nonstrict:within_limits_of_new_device'))
+sys.exit(replay(check='checks.c18', kernel='switch', shape={'program': 'slm', 'sym': [], 'concrete': [['dmm_0', 'bottom_detuning', -5.0]], 'strict': True},
+                assignment={'buf#1.start': 0, 'buf#1.end': 0, 'buf#2.start': 0, 'buf#2.end': 0, 'buf#5.start': 0, 'buf#5.end': 5, 'buf#8.start': 0, 'buf#8.end': 1}, label='strict:identical_timeline'))
